@@ -54,6 +54,31 @@ def main():
             r = n.run([['strto', rec['category'], hexs(rec['name'])]])[0]
             print('str_to_%s(%r) -> %s' % (rec['category'], rec['name'], r))
             same = True
+        elif job == 'analyze sequence' and 'other_source' in rec:
+            cat = rec.get('category') or ('qa' if rec.get('detector', '').startswith(('constructor', 'private_')) and 'constant' not in rec.get('detector', '') else None)
+            from . import oracle
+            cat = cat or oracle.CATEGORY.get(rec['detector'], 'opt')
+            pa, pb = n.file(rec['source']), n.file(rec['other_source'])
+            alone = n.run([['analyze', cat, rec['detector'], pa]])[0]
+            seq = n.run([['analyze', cat, rec['detector'], pb], ['analyze', cat, rec['detector'], pa]])[1]
+            print('analysed alone -> %s ; analysed after the other file in the same process -> %s' % (alone, seq))
+            same = alone != seq
+        elif job == 'threads':
+            pa, pb = n.file(rec['file_a']), n.file(rec['file_b'])
+            r = n.run([['threads', rec['category'], rec['detector'], pa, pb, str(rec.get('threads', 8)), str(rec.get('iterations', 300))]])[0]
+            print('8 threads on two files -> %s' % (r,))
+            same = r[0] != 'OK'
+        elif job == 'analyze_dir' and 'tree' in rec:
+            from . import dirlib as dl
+            from .checklib import Check
+            root = os.path.join(n.dir, 'tree')
+            tags = {}
+            dl.materialise(rec['tree'], root, lambda tag: rec.get('patterns', []))
+            class C_: pass
+            c_ = C_(); c_.native = n
+            got, want, raw = dl.native_union(c_, rec['category'], root, rec.get('patterns', []))
+            print('analyze_dir -> %r\nunion of the per-file results -> %r' % (got if got is not None else raw, want))
+            same = got is None or sorted(got) != sorted(want)
         else:
             print('recorded data:\n' + json.dumps({k: v for k, v in rec.items() if k not in ('what',)}, indent=1)[:3000])
             same = True
